@@ -175,6 +175,33 @@ def cli_leg(rep, tier):
             for sig, det, case in vs_: rep.add_violation(sig, det, case, replay=dict(kind="cli"))
     rep.add_level("cli-m-e", len(jobs), len(jobs), True, time.time() - t0, len(jobs), "real CLI -m and -e <key> on a sub-grid of blocks x 3 terminators")
 
+# keys with an empty value (legal anywhere except as the very first line of an unfenced block, which the format defines as 'not metadata')
+def empty_docs():
+    out = []
+    for keys in ([b"author", b"title"], [b"title", b"author"], [b"author", b"title", b"date"], [b"title", b"date", b"author"]):
+        for empty in keys:
+            for fence in ("none", "yaml"):
+                if fence == "none" and keys[0] == empty: continue
+                lines = b"".join(k + (b":\n" if k == empty else b": V-" + k + b"\n") for k in keys)
+                for term in (b"\nbody\n", b""):
+                    doc = (b"---\n" + lines + b"---\n" if fence == "yaml" else lines) + term
+                    out.append((doc, keys, empty))
+    return out
+def empty_case(idx):
+    doc, keys, empty = EMPTY_DOCS[idx]; v = []
+    for fam in (0, 1, 2):
+        case = dict(src=doc.decode("latin-1"), family=fam)
+        hm = mmd.meta(doc, 0, fam=fam)
+        if not hm or hm.split()[0] != b"1": v.append(("meta:has-metadata-false:empty-value", "has_metadata false for %r" % doc, case)); continue
+        got = [k for k in (mmd.meta(doc, 1, fam=fam) or b"").split(b"\n") if k]
+        if got != keys: v.append(("meta:keys:empty-value", "keys %r expected %r in %r" % (got, keys, doc), case)); continue
+        for k in keys:
+            val = mmd.meta(doc, 2, k, fam=fam)
+            want = b"" if k == empty else b"V-" + k
+            if norm_val(val or b"") != want: v.append(("meta:value:empty-value", "value for %r is %r, expected %r, in %r" % (k, val, want, doc), case)); break
+    return (pmap.h64(doc), v, dict(judged=3))
+EMPTY_DOCS = empty_docs()
+
 def run(tier):
     rep = core.Report("C11", tier, "model_checking")
     rep.rule = ("metadata blocks: 1..n distinct keys from %d spellings x values from %d shapes (colon, & < >, trailing spaces, continuation lines, multi-byte, key-looking continuation, quotes) x fence {none,YAML} x "
@@ -187,6 +214,8 @@ def run(tier):
     case, n = read_case(blocks)
     res = pmap.pmap(n, case, deadline_s=dl * 0.5)
     pmap.fold(rep, "read", n, res, "%d metadata blocks x fence x terminator x body: has_metadata/end, keys, values via 3 API families, html -f" % len(blocks))
+    res = pmap.pmap(len(EMPTY_DOCS), empty_case, workers=4, deadline_s=dl * 0.1)
+    pmap.fold(rep, "empty-values", len(EMPTY_DOCS), res, "blocks of 2-3 keys in which one key has an empty value (every position; fenced and unfenced; with and without body) x 3 API families")
     ublocks = all_blocks(1) + [b for b in all_blocks(2) if len(b[0]) == 2 and b[1][0] < 3 and b[1][1] < 3]
     depth = 2 if tier == "quick" else 3
     case, n = update_case(ublocks, depth)
